@@ -162,7 +162,11 @@ def run(ctx):
             continue
         obs = []
         over = None
-        for j, part in enumerate(out.split(";")):
+        parts = out.split(";")
+        if any(part.count(",") < 2 for part in parts):
+            failures.append({"key": "heap:garbled-result", "what": "the heap driver returned a malformed record (memory corruption?)", "input": inp, "impl": out[:200], "spec": "len,cap,flag per operation", "property_fails": True})
+            continue
+        for j, part in enumerate(parts):
             l, c, v = part.split(",", 2)
             obs.append("(%s, %s, %s)" % (l, c, "false" if v == "0" else "true"))
             if int(l) > int(c) and over is None: over = (j, l, c)
